@@ -606,40 +606,26 @@ dexkv_matches_p(const_dexkv_t dkv, struct dt_dt_s d)
 }
 
 static bool
-__conj_matches_p(const_dexpr_t dex, struct dt_dt_s d)
-{
-	const_dexpr_t a;
-
-	for (a = dex; a->type == DEX_CONJ; a = a->right) {
-		if (!dexkv_matches_p(a->left->kv, d)) {
-			return false;
-		}
-	}
-	/* rightmost cell might be a DEX_VAL */
-	return dexkv_matches_p(a->kv, d);
-}
-
-static bool
-__disj_matches_p(const_dexpr_t dex, struct dt_dt_s d)
-{
-	const_dexpr_t o;
-
-	for (o = dex; o->type == DEX_DISJ; o = o->right) {
-		if (__conj_matches_p(o->left, d)) {
-			return true;
-		}
-	}
-	/* rightmost cell may be a DEX_VAL */
-	return __conj_matches_p(o, d);
-}
-
-static __attribute__((unused)) bool
 dexpr_matches_p(const_dexpr_t dex, struct dt_dt_s d)
 {
-	return __disj_matches_p(dex, d);
+/* evaluate the tree as is, whatever shape the normaliser left it in */
+	switch (dex->type) {
+	case DEX_VAL:
+		return dexkv_matches_p(dex->kv, d);
+	case DEX_CONJ:
+		return dexpr_matches_p(dex->left, d) &&
+			dexpr_matches_p(dex->right, d);
+	case DEX_DISJ:
+		return dexpr_matches_p(dex->left, d) ||
+			dexpr_matches_p(dex->right, d);
+	case DEX_UNK:
+	default:
+		break;
+	}
+	return false;
 }
 
-
+
 #if defined STANDALONE
 const char *prog = "dexpr";
 
